@@ -27,6 +27,7 @@ import (
 	"crypto/sha1"
 	"encoding/hex"
 	"encoding/json"
+	"encoding/xml"
 	"fmt"
 	"io"
 	"math/rand"
@@ -499,6 +500,7 @@ type siOpts struct {
 	keepPre   bool // predefined styles stay registered as bystanders (variant 0 only; they are part of the fingerprint)
 	tablePr   bool // styles also carry table properties (not judged; noise for the merge)
 	partial   bool // multi-attribute elements are only partly specified (see siPartial)
+	through   bool // an in-place edit re-points basedOn by writing through the existing w:basedOn object
 }
 
 func siMakeOpts(caseID int) siOpts {
@@ -523,17 +525,34 @@ func siMakeOpts(caseID int) siOpts {
 	o.keepPre = r.Intn(4) == 0
 	o.tablePr = r.Intn(4) == 0
 	o.partial = r.Intn(3) == 0
+	o.through = r.Intn(2) == 0
 	return o
 }
 
 // nameOf is the display name of style k (never equal to a style id of the behaviour).
 func (o siOpts) nameOf(k int) string { return "name of " + o.ids[k-1] }
 
-var siAliasKinds = []string{"name", "case", "space"}
+var siAliasKinds = []string{"name", "case", "space", "label"}
+
+// siLabels: what the library's own tables of predefined styles call a style id (GetPredefinedStyleNames for
+// styles with an even index, the Name column of GetPredefinedStyleConfigs for the others).
+func siLabel(id string, k int) string {
+	if k%2 == 0 {
+		return style.GetPredefinedStyleNames()[id]
+	}
+	for _, c := range style.GetPredefinedStyleConfigs() {
+		if c.StyleID == id {
+			return c.Name
+		}
+	}
+	return ""
+}
+
 
 // alias concretises an alias reference: a string that is NOT a style id of the behaviour but resembles
 // style k: its display name, its id in the other letter case (ids without letters, or whose other-case
-// form is an id too, have no such alias: the reference is then just another undefined id), its id followed by a blank.
+// form is an id too, have no such alias: the reference is then just another undefined id), its id followed by a
+// blank, the label the library's tables of predefined styles give that id (ids that are not predefined have none).
 func (o siOpts) alias(kind string, k int) string {
 	id := o.ids[k-1]
 	switch kind {
@@ -559,6 +578,17 @@ func (o siOpts) alias(kind string, k int) string {
 			return sw
 		}
 		return "VfNoOtherCase/" + id
+	case "label":
+		l := siLabel(id, k)
+		for _, other := range o.ids {
+			if other == l {
+				l = ""
+			}
+		}
+		if l == "" {
+			return "VfNoLabel/" + id
+		}
+		return l
 	}
 	return id + " "
 }
@@ -632,9 +662,14 @@ type siChild struct {
 
 var siC *siChild
 
-func (c *siChild) reset(caseID int, names bool) {
+func (c *siChild) reset(caseID int, names, docs bool) {
 	c.caseID = caseID
 	c.opt = siMakeOpts(caseID)
+	if docs && c.opt.ids[1] == "Normal" {
+		// LoadStylesFromDocument adds the predefined Normal / Heading styles on its own: the behaviour's
+		// styles must not go by those ids
+		c.opt.ids = siIDSets[0]
+	}
 	c.names = names
 	siPartial = c.opt.partial
 	c.sms = c.fresh()
@@ -699,6 +734,32 @@ func (c *siChild) define(sm *style.StyleManager, v, k int, b string, x, y bool) 
 	if !o.viaCreate {
 		sm.AddStyle(st)
 	}
+}
+
+type siStylesDoc struct {
+	XMLName xml.Name       `xml:"w:styles"`
+	XmlnsW  string         `xml:"xmlns:w,attr"`
+	Styles  []*style.Style `xml:"w:style"`
+}
+
+// stylesXML writes the definitions (in their order) as a styles part for variant v.
+func (c *siChild) stylesXML(v int, defs []interface{}) ([]byte, error) {
+	tmp := style.NewStyleManager()
+	for _, s := range tmp.GetAllStyles() {
+		tmp.RemoveStyle(s.StyleID)
+	}
+	doc := siStylesDoc{XmlnsW: "http://schemas.openxmlformats.org/wordprocessingml/2006/main"}
+	for _, d := range defs {
+		m := Op(d.(map[string]interface{}))
+		k := siK(m.Str("s"))
+		c.define(tmp, v, k, m.Str("b"), m.Bool("x"), m.Bool("y"))
+		doc.Styles = append(doc.Styles, tmp.GetStyle(c.opt.ids[k-1]))
+	}
+	b, err := xml.Marshal(doc)
+	if err != nil {
+		return nil, err
+	}
+	return append([]byte(xml.Header), b...), nil
 }
 
 // project one registry to abstract terms: for every known id that is registered its based-on id
@@ -996,7 +1057,7 @@ func (c *siChild) step(i int, op Op, quiet bool) Ev {
 			if !quiet {
 				ev["seen"], ev["creg"], ev["ch"] = true, c.projectOf(c.clones), c.hashOf(c.clones)
 			}
-		case inner.Name() == "Load" || inner.Name() == "CloneSwap" || inner.Name() == "CloneDrop":
+		case inner.Name() == "Load" || inner.Name() == "LoadXML" || inner.Name() == "CloneSwap" || inner.Name() == "CloneDrop":
 			ret = "unknown-op"
 		default:
 			ret, pmsg = c.exec(inner, &c.clones, ev, groups)
@@ -1054,6 +1115,28 @@ func (c *siChild) exec(op Op, psms *[]*style.StyleManager, ev Ev, groups siGroup
 			}
 			return "ok"
 		})
+	case "LoadXML":
+		// the registry comes from a styles part: the definitions are written as XML (the library's own
+		// element / attribute names) and handed to one of the three loaders
+		defs, _ := op["defs"].([]interface{})
+		each(func(v int, sm *style.StyleManager) string {
+			data, err := c.stylesXML(v, defs)
+			if err != nil {
+				panic("cannot write styles XML: " + err.Error())
+			}
+			switch op.Str("how") {
+			case "parse":
+				err = sm.ParseStylesFromXML(data)
+			case "merge":
+				err = sm.MergeStylesFromXML(data)
+			default:
+				err = sm.LoadStylesFromDocument(data)
+			}
+			if err != nil {
+				return "err"
+			}
+			return "ok"
+		})
 	case "AddStyle":
 		each(func(v int, sm *style.StyleManager) string {
 			c.define(sm, v, siK(op.Str("s")), op.Str("b"), op.Bool("x"), op.Bool("y"))
@@ -1081,7 +1164,11 @@ func (c *siChild) exec(op Op, psms *[]*style.StyleManager, ev Ev, groups siGroup
 			if b := op.Str("b"); b == "none" {
 				st.BasedOn = nil
 			} else if b != "keep" {
-				st.BasedOn = &style.BasedOn{Val: o.id(b)}
+				if o.through && st.BasedOn != nil {
+					st.BasedOn.Val = o.id(b)
+				} else {
+					st.BasedOn = &style.BasedOn{Val: o.id(b)}
+				}
 			}
 			for ai, a := range siAttrs {
 				sl := siSlot(v, ai)
@@ -1145,6 +1232,13 @@ func (c *siChild) exec(op Op, psms *[]*style.StyleManager, ev Ev, groups siGroup
 				len(api.GetParagraphStylesInfo()) + len(api.GetCharacterStylesInfo())
 			for _, t := range []style.StyleType{style.StyleTypeParagraph, style.StyleTypeCharacter, style.StyleTypeTable, style.StyleTypeNumbering} {
 				n += len(sm.GetStylesByType(t))
+			}
+			// the library's tables of predefined styles are listings too; what they return is the caller's
+			cfgs, nm := style.GetPredefinedStyleConfigs(), style.GetPredefinedStyleNames()
+			n += len(cfgs) + len(nm)
+			siMutate(reflect.ValueOf(cfgs))
+			for k := range nm {
+				nm[k] += "~mut"
 			}
 			_ = n
 			return "ok"
@@ -1236,11 +1330,9 @@ func runStyleInhChild(c Case, emit Emitter) {
 	for _, i := range cmd.Skip {
 		skip[i] = true
 	}
-	names := false
-	if raw, err := json.Marshal(c.Steps); err == nil {
-		names = bytes.Contains(raw, []byte(`"name:`))
-	}
-	siC.reset(c.ID, names)
+	raw, _ := json.Marshal(c.Steps)
+	names := bytes.Contains(raw, []byte(`"name:`))
+	siC.reset(c.ID, names, bytes.Contains(raw, []byte(`"how":"doc"`)))
 	for j := 0; j < cmd.From && j < len(c.Steps); j++ {
 		if siMutating(c.Steps[j]) {
 			siC.step(j, c.Steps[j], true)
@@ -1404,7 +1496,7 @@ func (s *siSup) lastWords() string {
 // siMutating: steps a fresh child re-runs quietly to get back to the state before step From
 func siMutating(op Op) bool {
 	switch op.Name() {
-	case "Load", "AddStyle", "RemoveStyle", "Create", "Edit", "CloneSwap", "Clone":
+	case "Load", "LoadXML", "AddStyle", "RemoveStyle", "Create", "Edit", "CloneSwap", "Clone":
 		return true
 	case "OnClone":
 		return siAbstractMutator(siInner(op).Name())
@@ -1416,7 +1508,7 @@ func siResolver(name string) bool { return name == "Resolve" || name == "ToXML" 
 
 func siAbstractMutator(name string) bool {
 	switch name {
-	case "Load", "AddStyle", "RemoveStyle", "Create", "Edit":
+	case "Load", "LoadXML", "AddStyle", "RemoveStyle", "Create", "Edit":
 		return true
 	}
 	return false
